@@ -25,6 +25,8 @@ func transportRules(c *Ctx, rule string, withWrites bool) {
 				otherReads++
 			}
 			rm, _ = ci.(*ssa.Call)
+		case benignConnCall(n):
+			// names the peer in a log line or an error: no I/O
 		case strings.HasPrefix(n, "(*"+gorilla+".Conn)."):
 			otherReads++ // NextReader, SetReadLimit, ... : partial or limited reads
 		case ci.Common().IsInvoke() && ci.Common().Method.Name() == "Read":
@@ -129,7 +131,7 @@ func transportRules(c *Ctx, rule string, withWrites bool) {
 	nConn := 0
 	for _, ci := range callsIn(wp) {
 		n := calleeName(ci)
-		if strings.HasPrefix(n, "(*"+gorilla+".Conn).") {
+		if strings.HasPrefix(n, "(*"+gorilla+".Conn).") && !benignConnCall(n) {
 			nConn++
 			if n == "(*"+gorilla+".Conn).WriteMessage" {
 				k, isC := constInt(arg(ci, 0))
@@ -144,6 +146,9 @@ func transportRules(c *Ctx, rule string, withWrites bool) {
 	for _, ci := range callsIn(lw) {
 		if ci.Common().IsInvoke() {
 			if _, f, ok := fieldLoad(strip(ci.Common().Value)); ok && f.Name() == "Conn" {
+				if m := ci.Common().Method.Name(); m == "RemoteAddr" || m == "LocalAddr" {
+					continue
+				}
 				nConn++
 				good = ci.Common().Method.Name() == "Write" && strip(ci.Common().Args[0]) == ssa.Value(lw.Params[1])
 			}
@@ -180,3 +185,13 @@ func transportRules(c *Ctx, rule string, withWrites bool) {
 
 // mustErr is a placeholder for symmetry (error returns are unconstrained).
 func mustErr(fn *ssa.Function, r *ssa.Return, call *ssa.Call) bool { return true }
+
+// benignConnCall: accessors of a websocket connection that neither read nor write it.
+func benignConnCall(name string) bool {
+	for _, m := range []string{"RemoteAddr", "LocalAddr", "Subprotocol"} {
+		if name == "(*github.com/gorilla/websocket.Conn)."+m {
+			return true
+		}
+	}
+	return false
+}
